@@ -75,7 +75,14 @@ class AGreater(Predicate):
 
 @symbolic_function
 def sum_ab(x, y=None):
-    return x.a + (y.b if y is not None else 0)
+    """never falsy (>= 1): keeps the falsy-operand finding out of the main workload"""
+    return x.a + (y.b if y is not None else 0) + 1
+
+
+@symbolic_function
+def diff_ab(x, y=None):
+    """may be 0 (falsy)"""
+    return x.a - (y.b if y is not None else 0)
 
 
 def fresh_symbol_graph():
